@@ -166,7 +166,8 @@ func c13Reference(spec ReSpec, op *Op, cap int64) c13ref {
 // backward jump in between, then a literal -- the shapes that test the capacity invariant itself (free space
 // >= what one pass can push) rather than the growth logic
 var packedUnits = []string{`(?:ab){0,2}?`, `(?:ab){0,2}`, `(?:x)??`, `(?:x)?`, `(a)`, `(?<n>a)?`, `(?=a)`, `(?!b)`, `(?<=a)`, `(?>a|b)?`,
-	`(?:a|b|c)`, `(?:ab|a)??`, `(a)?(?(1)b|c)`, `(?<o>a)(?<-o>b)?`, `a*?`, `[ab]{1,3}?`, `(?:a{1,2}?){1,2}?`, `\b`, `(?i:a)??`}
+	`(?:a|b|c)`, `(?:ab|a)??`, `(a)?(?(1)b|c)`, `(?<o>a)(?<-o>b)?`, `a*?`, `[ab]{1,3}?`, `(?:a{1,2}?){1,2}?`, `\b`, `(?i:a)??`,
+	`()`, `(?:\b|\B)`, `(?:(?=a)|x)`, `(?:^|a)`}
 
 func packedPattern(r *rng) (string, []string) {
 	u := packedUnits[r.n(len(packedUnits))]
@@ -182,11 +183,14 @@ func packedPattern(r *rng) (string, []string) {
 			p += u
 		}
 	}
-	switch r.n(4) {
+	switch r.n(6) {
 	case 0:
 		p = "(?:" + p + ")*"
 	case 1:
 		p = "^" + p
+	case 2:
+		// a counted loop around it (zero-width passes below the minimum are iterations, too), then more pushes
+		p = fmt.Sprintf("(?:%s){%d%s}%s", p, 2+r.n(30), []string{"", ",", ",40"}[r.n(3)], []string{"", "?"}[r.n(2)]) + []string{"", "(a)(b)(c)", "(a)?(b)?", "abc"}[r.n(4)]
 	}
 	p += []string{"z", "z", "", "$", "b"}[r.n(5)]
 	return p, []string{"z", "a", "ab", "x", "b", "abab", "az", "", "c"}
